@@ -761,3 +761,49 @@ def _rules_load_search():
         except Exception:       # noqa
             continue            # a top-level value that is no mapping is outside the contract (AttributeError in the real code)
     return None
+
+
+@_search('policy:Enforcer._enforce_scope')
+def _enforce_scope_search():
+    """the scope of the token is system if creds['system'] is true, else domain if creds['domain_id'] is true, else project;
+    in scope -> True; out of scope -> InvalidScope (enforce_scope on, do_raise), False (on, no raise), True (off); nothing else
+    is raised, whatever JSON values the credentials hold"""
+    import itertools
+    import warnings
+    from oslo_config import cfg
+    from oslo_policy import policy, opts
+    systems = ['<absent>', None, 'all', '', True, False, 0, 1, ['all'], [], {'all': True}, {}, 1.5]
+    domains = ['<absent>', None, 'd1', '', 0, ['d'], {}]
+    scope_sets = [['system'], ['domain'], ['project'], ['system', 'project'], ['domain', 'project', 'system'], []]
+    for sysv, dom, st, enf, dr in itertools.product(systems, domains, scope_sets, (True, False), (True, False)):
+        creds = {'roles': ['r'], 'project_id': 'p1'}
+        if sysv != '<absent>':
+            creds['system'] = sysv
+        if dom != '<absent>':
+            creds['domain_id'] = dom
+        conf = cfg.ConfigOpts()
+        conf([], project='verif', default_config_files=[], default_config_dirs=[])
+        opts._register(conf)
+        conf.set_override('enforce_scope', enf, group='oslo_policy')
+        e = policy.Enforcer(conf, use_conf=False)
+        rule = policy.RuleDefault('p:x', '@', scope_types=st or None)
+        if not st:
+            continue        # a rule without scope types is not gated (enforce never calls the gate for it)
+        scope = 'system' if (sysv != '<absent>' and sysv) else ('domain' if (dom != '<absent>' and dom) else 'project')
+        if scope in st:
+            want = ('ret', True)
+        elif enf:
+            want = ('exc', 'InvalidScope') if dr else ('ret', False)
+        else:
+            want = ('ret', True)
+        try:
+            with warnings.catch_warnings():
+                warnings.simplefilter('ignore')
+                got = ('ret', e._enforce_scope(dict(creds), rule, do_raise=dr))
+        except Exception as ex:     # noqa
+            got = ('exc', type(ex).__name__)
+        if got != want:
+            return ({'creds': safe(creds), 'scope_types': st, 'enforce_scope': enf, 'do_raise': dr},
+                    '_enforce_scope(%s, scope_types=%r, do_raise=%r) with enforce_scope=%r gave %r, the table says %r' % (
+                        safe(creds), st, dr, enf, got, want))
+    return None
